@@ -49,7 +49,9 @@ def option_matrix(tier: str, rng, no_float: bool = False) -> typing.List[typing.
     if tier == 'quick':
         out += [('target_c', {'target_endianness': 'any'}),
                 ('target_c', {'target_endianness': 'little', 'enable_serialization_asserts': True}),
-                ('target_c', {'target_endianness': 'big', 'sanitize': True})]
+                ('target_c', {'target_endianness': 'big', 'sanitize': True}),
+                # exactly sized heap buffers + ASan on the little-endian fast paths (memmove of the in-memory image)
+                ('target_c', {'target_endianness': 'little', 'sanitize': True})]
         cpp = [{'target_endianness': 'any', 'std': 'c++17'},
                {'target_endianness': 'little', 'enable_serialization_asserts': True, 'std': 'c++17-pmr'},
                {'target_endianness': 'big', 'std': rng.choice(['c++14', 'c++20'])}]
@@ -305,6 +307,160 @@ def run_pyref(prep: Prepared, cases: typing.List[Case]) -> typing.List[str]:
         return json.loads(p.stdout)['out']
     except Exception:  # noqa: BLE001
         return ['crash pyref failed: ' + (p.stderr[-300:] or p.stdout[-300:])] * len(cases)
+
+
+
+# ------------------------------------------------------------------------------------------------
+# histories (targets that keep objects alive across calls: Python): aliasing between the results of successive calls
+# ------------------------------------------------------------------------------------------------
+
+class History:
+    """steps: (request tokens of the step, kind 'ser'|'des'|'any', model request giving the expected answer | None, mask value)"""
+
+    def __init__(self, tid: str, tags: typing.List[str]):
+        self.tid, self.tags = tid, tags
+        self.steps: typing.List[typing.Tuple[typing.List[str], str, typing.Optional[str], typing.Any]] = []
+        self.expected: typing.List[str] = []
+
+    def request(self) -> str:
+        return 'hist ' + ' ;; '.join(' '.join(st[0]) for st in self.steps)
+
+
+def gen_histories(rng, prep: Prepared, tids: typing.List[str], per_type: int = 1) -> typing.List[History]:
+    """Two shapes per type; every expected answer is a SINGLE-call answer of the specification.
+    decode shape: decode truncated/empty input (zero-extended arrays), overwrite the returned arrays in place, decode again,
+      decode other bytes, look at the earlier objects again.
+    encode shape: serialize three values of one type keeping every returned fragment, read the earlier fragments again, decode
+      zero-copy from them, serialize again, dump / re-serialize the earlier object."""
+    m, db = prep.model, prep.db
+    hs: typing.List[History] = []
+    for tid in tids:
+        c = db.comp(tid)
+        for _ in range(per_type):
+            vals = []
+            for mode in ('rand', 'full', 'rand'):
+                tags: set = set()
+                vals.append(valgen.gen_full(rng, db, c, 0, tags) if mode == 'full' else valgen.gen_comp_value(rng, db, c, mode, tags, None))
+                if any(t.startswith(('f16_overflow', 'outside_wire')) for t in tags):
+                    vals[-1] = valgen.default_comp(db, c)
+            # values on which targets may legitimately differ (float16 ties / subnormals, NaN payloads) would make the later
+            # decode-what-you-encoded steps ambiguous: use exactly representable ones here (those strata are covered by the
+            # single-call campaign)
+            for k, r in enumerate(m.run([m.tok_req('msk', tid, v) for v in vals])):
+                t = r.split()
+                if t[:1] != ['ok'] or (len(t) > 1 and t[1] != '-' and int(t[1], 16) != 0):
+                    vals[k] = valgen.default_comp(db, c)
+            toks = [proto.encode_comp(db, c, v) for v in vals]
+            sreq = [m.ser_req(tid, v) for v in vals]
+            enc = []
+            for r in m.run(sreq):
+                t = r.split()
+                enc.append(bytes.fromhex(t[2] if t[2] != '-' else '') if t[:1] == ['ok'] else None)
+            if any(e is None for e in enc):
+                continue
+            # ---- encode shape
+            h = History(tid, ['history_encode'])
+            dreq = m.des_req(tid, enc[0])
+            h.steps = [(['ser', tid, 'f1'] + toks[0], 'ser', sreq[0], vals[0]),
+                       (['ser', tid, 'f2'] + toks[1], 'ser', sreq[1], vals[1]),
+                       (['frag', 'f1'], 'ser', sreq[0], vals[0]),
+                       (['desfrag', tid, 'f1', 'o1'], 'des', dreq, None),
+                       (['ser', tid, 'f3'] + toks[2], 'ser', sreq[2], vals[2]),
+                       (['dump', 'o1'], 'des', dreq, None),
+                       (['frag', 'f2'], 'ser', sreq[1], vals[1]),
+                       (['reser', 'o1', 'f4'], 'ser', sreq[0], vals[0]),
+                       (['frag', 'f1'], 'ser', sreq[0], vals[0]),
+                       (['frag', 'f3'], 'ser', sreq[2], vals[2])]
+            hs.append(h)
+            # ---- decode shape: b1 = truncation (possibly to nothing) of a valid encoding, b2 = another valid encoding
+            full = enc[1] if len(enc[1]) >= len(enc[0]) else enc[0]
+            cut = rng.choice([0, 1, len(full) // 3, len(full) // 2]) if full else 0
+            b1, b2 = full[:cut], enc[2]
+            d1, d2 = m.des_req(tid, b1), m.des_req(tid, b2)
+            h = History(tid, ['history_decode'])
+            h.steps = [(['des', tid, b1.hex() or '-', 'o1'], 'des', d1, None),
+                       (['mutate', 'o1'], 'any', None, None),
+                       (['des', tid, b1.hex() or '-', 'o2'], 'des', d1, None),
+                       (['des', tid, b2.hex() or '-', 'o3'], 'des', d2, None),
+                       (['dump', 'o2'], 'des', d1, None),
+                       (['mutate', 'o2'], 'any', None, None),
+                       (['dump', 'o3'], 'des', d2, None),
+                       (['des', tid, b1.hex() or '-', 'o4'], 'des', d1, None),
+                       (['reser', 'o3', 'f1'], 'ser', m.ser_req(tid, vals[2]), vals[2])]
+            hs.append(h)
+    # expected answers: one model run for all steps
+    reqs = sorted({st[2] for h in hs for st in h.steps if st[2]})
+    ans = dict(zip(reqs, m.run(reqs)))
+    for h in hs:
+        h.expected = [ans.get(st[2], '') if st[2] else '' for st in h.steps]
+    # only histories whose single-call expectations are all successes make sense here
+    return [h for h in hs if all(e.startswith('ok') or not st[2] for e, st in zip(h.expected, h.steps))]
+
+
+def check_history(prep: Prepared, h: History, got: str) -> typing.Optional[dict]:
+    """None when every step agrees with the specification; otherwise the first differing step"""
+    parts = [p.strip() for p in got.split(';;')]
+    if parts[0] != 'ok' or len(parts) != len(h.steps) + 1:
+        return {'step': -1, 'problem': 'malformed history answer', 'got': got[:400]}
+    if any(p.startswith('err rejected') for p in parts[1:]):
+        return None                     # the target cannot hold one of the values: not applicable
+    for i, (st, exp, g) in enumerate(zip(h.steps, h.expected, parts[1:])):
+        if st[1] == 'any':
+            if not g.startswith('ok'):
+                return {'step': i, 'request': ' '.join(st[0])[:200], 'expected': 'ok', 'got': g[:300]}
+            continue
+        if st[1] == 'ser':
+            same = g == exp
+            if not same:
+                r = prep.model.run([prep.model.tok_req('msk', h.tid, st[3])])[0].split()
+                same = modelmod.same_ser(exp, g, r[1] if r[:1] == ['ok'] and len(r) > 1 else '')
+        else:
+            same = modelmod.same_des(prep.db, h.tid, exp, g)
+        if not same:
+            return {'step': i, 'request': ' '.join(st[0])[:300], 'expected': exp[:400], 'got': g[:400],
+                    'steps_before': [' '.join(s[0])[:160] for s in h.steps[:i]]}
+    return None
+
+
+def run_histories(rng, prep: Prepared, stats: dict, per_type: int = 1) -> typing.List[dict]:
+    """run the histories on every built target that supports them (Python); returns failures (kind 'history')"""
+    tgts = [(lab, t) for lab, t in prep.targets if t.name == 'py']
+    if not tgts:
+        return []
+    hs = gen_histories(rng, prep, prep.db.ids(), per_type)
+    out: typing.List[dict] = []
+    for lab, tgt in tgts:
+        try:
+            answers = tgt.run([h.request() for h in hs], timeout=600.0)
+        except Exception as ex:  # noqa: BLE001
+            answers = ['crash runner raised %r' % (ex,)] * len(hs)
+        for h, got in zip(hs, answers):
+            stats['history_steps'] = stats.get('history_steps', 0) + len(h.steps)
+            for tg in h.tags:
+                stats.setdefault('strata', {})[tg] = stats.get('strata', {}).get(tg, 0) + 1
+            if got.startswith('crash') or got.startswith('err'):
+                bad = {'step': -1, 'problem': 'history request failed', 'got': got[:400]}
+            else:
+                bad = check_history(prep, h, got)
+            if bad and not out:
+                src = {prep.db.comp(h.tid)['source']}
+                need = set()
+
+                def visit(tid):
+                    if tid in need:
+                        return
+                    need.add(tid)
+                    for fl in prep.db.comp(tid)['fields']:
+                        for r in modelmod.refs_of(fl['type']):
+                            visit(r)
+                visit(h.tid)
+                srcs = {prep.db.comp(t)['source'] for t in need}
+                out.append({'kind': 'history', 'target': tgt.name, 'label': lab, 'options': tgt.options, 'tags': h.tags,
+                            'case': {'op': 'hist', 'tid': h.tid, 'request': h.request(), 'expected_steps': h.expected,
+                                     'step_kinds': [st[1] for st in h.steps], 'tags': h.tags},
+                            'first_difference': bad,
+                            'files': {k: v for k, v in prep.spec['files'].items() if k in srcs} or prep.spec['files']})
+    return out
 
 
 # ------------------------------------------------------------------------------------------------
@@ -627,6 +783,12 @@ def run(chk: core.Check, direction: str, generators: typing.List[str], trusted: 
                                      '_prep': prep, '_case': c, '_tgt': tgt})
             if nbad:
                 failures[-1]['n_failing_on_this_target'] = nbad
+        # histories: several calls in one process, earlier results kept alive and mutated (aliasing across calls)
+        hist_fail = run_histories(chk.rng, prep, stats, per_type=1 if chk.tier == 'quick' else 4)
+        evaluations += stats.get('history_steps', 0) - stats.get('_hist_counted', 0)
+        validated += stats.get('history_steps', 0) - stats.get('_hist_counted', 0)
+        stats['_hist_counted'] = stats.get('history_steps', 0)
+        failures += hist_fail
         for c in cases[:400:23]:
             if len(samples) < 40:
                 samples.append({'request': c.req[:300], 'expected': c.expected[:200], 'tags': c.tags})
@@ -659,6 +821,17 @@ def run(chk: core.Check, direction: str, generators: typing.List[str], trusted: 
             chk.violation(rep, found_input=True)
             reported = True
             break
+    if not reported:
+        for f in failures:
+            if f['kind'] == 'history':
+                rep = dict(f)
+                rep['broken'] = broken
+                rep['what'] = ('generated %s code: the results of successive calls in one process influence each other (a returned '
+                               'object / fragment aliases memory that a later call rewrites, or that an in-place write of the caller '
+                               'leaks into later results); every step is compared with the single-call specification' % f['target'])
+                chk.violation(rep, found_input=True)
+                reported = True
+                break
     if not reported:
         for f in failures:
             rep = {k: v for k, v in f.items() if not k.startswith('_')}
@@ -773,6 +946,37 @@ def run_replay(chk: core.Check, direction: str, path: str) -> int:
     work = core.scratch('c01replay-')
     prep = prepare(dsdlgen.single(doc['files']), work, exe)
     cj = doc['case']
+    if cj['op'] == 'hist':
+        build_targets(prep, [('target_' + doc.get('target', 'py'), doc.get('options', {}))], core.REPO)
+        if not prep.targets:
+            chk.violation({'what': 'replay target failed to build', 'log': prep.build_failures}, found_input=False)
+            return chk.finish()
+        got = prep.targets[0][1].run([cj['request']])[0]
+        h = History(cj['tid'], cj.get('tags', []))
+        toks, cur = [], []
+        for a in cj['request'].split()[1:]:
+            if a == ';;':
+                toks.append(cur)
+                cur = []
+            else:
+                cur.append(a)
+        toks.append(cur)
+        h.steps = [(t, k, None, None) for t, k in zip(toks, cj['step_kinds'])]
+        h.expected = cj['expected_steps']
+        bad = None
+        parts = [p.strip() for p in got.split(';;')]
+        for i, (st, exp, g) in enumerate(zip(h.steps, h.expected, parts[1:])):
+            ok_i = g.startswith('ok') if st[1] == 'any' else (g == exp or (modelmod.same_des(prep.db, h.tid, exp, g) if st[1] == 'des' else False))
+            print('step %2d %-40s %s' % (i, ' '.join(st[0])[:40], 'ok' if ok_i else 'DIFFERS: expected %s | got %s' % (exp[:120], g[:120])))
+            if not ok_i and bad is None:
+                bad = i
+        print('verdict        : %s' % ('agree (no longer reproduces)' if bad is None else 'DISAGREE at step %d' % bad))
+        chk.coverage.update({'evaluations': len(h.steps), 'distinct_nontrivial': 1, 'samples': [cj], 'traces_validated_against_impl': len(h.steps),
+                             'distribution': {'replay': path}, 'obligations': 1, 'discharged': 1})
+        if bad is not None:
+            chk.violation({'case': cj, 'files': doc['files'], 'target': doc.get('target', 'py'), 'options': doc.get('options', {}),
+                           'what': 'replayed history still fails at step %d' % bad}, found_input=True)
+        return chk.finish()
     if cj['op'] == 'ser':
         c = Case('ser', cj['tid'], value=cj['value'], cap=cj['cap_bytes'], fill=cj['fill'], tags=cj.get('tags', []))
     else:
